@@ -44,6 +44,15 @@ HAND = [
     "pragma circom 2.0.0;\nfunction f(n) { var a[2]; if (n) { n = a[0]; } else { n = a[1]; } return n; }\n"
     "function g(n) { var u; var w; for (var i = 0; i < 2; i++) { if (n) { n = u; } else { n = w + 1; } } if (n == 3) { return w; } return u; }\n"
     "template T(n) { signal input in; signal output out; var a[2]; var t; if (n == 1) { t = a[0]; out <== in; } else { t = a[1]; out <== in * in; } }\n",
+    # templates that the desugaring rejects next to templates that instantiate them (anonymously and by name): what is reported for
+    # the valid ones must not depend on the order in which the definitions are desugared (a hash map)
+    "pragma circom 2.0.0;\ntemplate Dbl() { signal input in; signal output out; out <== 2 * in; }\n"
+    "template BadA() { signal input in; signal output out; out <== Dbl()(in) + 1; }\n"
+    "template BadB() { signal input in; signal output out; signal output p; (out, p) <== (in, in, in); }\n"
+    "template UseA() { signal input a; signal input b; signal output out; signal t; t <-- a * b; out <== BadA()(t); }\n"
+    "template UseB() { signal input a; signal output out; signal output q; (out, q) <== BadB()(a); }\n"
+    "template UseC() { signal input a; signal output out; component c = BadA(); c.in <== a; out <-- c.out; }\n"
+    "template UseD() { signal input a; signal output out; out <== Dbl()(Dbl()(a)); }\n",
 ]
 
 
